@@ -20,5 +20,5 @@ ASSUMPTIONS = [
 META = {
     "technique": "Coq proof (state invariant over all event histories by induction; C03 envelope reused for shifted bounds) + trace correspondence of the real PowerManagingActor on virtual time vs the model evaluated in Coq",
     "level_text": "Machine-checked theorem (closed under the global context): for every history of regular/operating-point proposals, zero-containing bounds updates, distribution results and expiry ticks, every request of the model equals the sum of the two stored (= reported) targets and lies within the inclusion bounds in force; the same per group for one actor serving any number of component groups (C11_multi_group_sum_and_bounds), whose groups influence each other only through the shared partial-failure flag (C11_groups_independent). The model is the repaired `_calculate_target_power` (fix: commit for F7; the pre-fix behaviour is refuted by a witness theorem). Tie: the real actor is run through its channels under async_solipsism on hundreds of generated event histories (stream `actor`: one event at a time, results answering older requests, bounds with earlier/equal/later data timestamps, independent subscription priorities; stream `groups`: three component groups served by one actor, interleaved events, shared actor identities, shared partial-failure flag and expiry timer, model twin PowerManagerN.v; stream `bursts`: back-to-back injection, recorded handler order, report subscriptions for several priorities per group arriving at any time) and every Request and _Report (targets and bounds, per subscribed priority) is compared with the model inside Coq; the property is also judged directly on the recorded requests/reports.",
-    "level_note": "Trusted: Coq kernel + vm_compute, translator (bounds functions, max proposal ages), harness (one stub: the pool feeding the bounds tracker is replaced by a channel), asyncio/frequenz.channels scheduling (events are injected one at a time). Exact-boundary expiry (age == 60 s within 2 us) is excluded from the correspondence because float subtraction is not modelled.",
+    "level_note": "Trusted: Coq kernel + vm_compute, translator (bounds functions, max proposal ages), harness (streams `actor`/`bursts`: the pool feeding the bounds tracker is replaced by a channel; stream `groups`: the real _add_system_bounds_tracker with a recording pool factory in place of the data pipeline), asyncio/frequenz.channels scheduling (events are injected one at a time). Exact-boundary expiry (age == 60 s within 2 us) is excluded from the correspondence because float subtraction is not modelled.",
 }
